@@ -1,6 +1,6 @@
 import AlgoVerif.Proofs.C05Binary
 import AlgoVerif.Proofs.C05BinomialOrder
-import AlgoVerif.Proofs.C05Fibonacci
+import AlgoVerif.Proofs.C05FibFull
 /-!
 # C05 — indexed heaps keep index, key and value consistent (property theorems)
 
@@ -115,57 +115,61 @@ theorem C05_ibinomial_indexmap {K V : Type} (cmp : K → K → Int) (eq : V → 
   rw [IBinomial.abs_new] at this
   exact this
 
-/-! ## indexed Fibonacci heap
+/-! ## indexed Fibonacci heap -/
 
-Full statement (same as `C05_ibinary`, not proved here):
-
-    theorem C05_ifibonacci (cmp) (hc : LawfulCmp cmp) (hz : ∀ a b, cmp a b = 0 → a = b) (eq) (cap) (ops) :
-        Admitted cmp eq cap Map.empty ops (IFib.run cmp eq cap ops)
-
-What is proved below, for all capacities, comparators with `cmp a b = 0 → a = b` (needed because `ChangeKey` of
-`indexed_fibonacci.go` keeps the old key object when the new key compares equal), value equalities and
-histories including invalid indices:
-
-* the **index-map invariant** (`IFib.Inv` = `Reg` + `n` counts the held indices): the ids of the nodes linked
-  into the forest are pairwise distinct, every linked node `x` is registered as `nodes[x.index] = x`, every
-  non-nil `nodes[i]` is a linked node whose `index` field is `i` — through cuts, cascading cuts, consolidation,
-  melds and root-list rotations — holds in every state the Model reaches;
-* every call that returns answers exactly what the partial map `index ⇀ (key, value)` prescribes
-  (`AdmitWeak`): exact success/failure of `Insert/ChangeKey/DeleteIndex/PeekIndex/ContainsIndex` for every
-  index argument, the returned key/value are the current ones of that index, `ContainsKey/ContainsValue`
-  exact on sparse index sets, `Size/IsEmpty` exact, `Peek/Delete` return a *held* index with its current key
-  and value and `Delete` removes exactly that index.
-
-What is missing from the full statement and is only **corresponded** (implementation vs Model vs Go oracle on
-every check run, incl. state dumps): (1) the key returned by `Peek/Delete` is *extremal* (heap order of the
-forest and `h.ext` being the minimum root, which after `consolidate` depends on every root having been entered
-into the `roots` table); (2) no call of the Model ends in `panic`/`diverge`: the node found by `nodes[i]` is in
-the forest, `roots[x.degree]` is in range — the degree bound `fib(degree+2) ≤ size` under marks that are
-toggled rather than cleared — and `consolidate` terminates within its fuel.
-`AdmittedWhileOk` says this literally: the trace is admitted up to the first `panic`/`diverge`, if any. -/
-
-theorem C05_ifibonacci_partial {K V : Type} (cmp : K → K → Int)
-    (eq : V → V → Bool) (cap : Nat) (ops : List (Op K V)) :
-    AdmittedWhileOk (fun _ _ => True) cmp eq cap Map.empty ops (IFib.run cmp eq cap ops) := by
-  have := admittedWhileOk_of_sim (P := fun _ _ => True) (cmp := cmp) (eq := eq) (cap := cap)
-    (IFib.step cmp eq) (IFib.Inv cap) IFib.abs
-    (fun s op s' r inv he => IFib.step_sim eq s op s' r inv he) ops (IFib.new cap) (IFib.inv_new cap)
+/-- **Indexed Fibonacci heap, full strength.**  Same statement as `C05_ibinary` for the Model of
+`heap/indexed_fibonacci.go`: every call of every history returns — `nodes[i]` always names a linked node,
+`roots[x.degree]` is always inside the table of `consolidate` (every tree of degree `d` has at least
+`fib (d+2)` nodes although marks are toggled and never cleared, and `fib (d+2) ≤ n` implies
+`d < ⌊log_φ n⌋ + 1`), `consolidate` finishes within its fuel — and answers what the partial map allows;
+`Peek`/`Delete` return an extremal key (heap order of the forest, `h.ext` before every node; after
+`consolidate` every root has been entered into the `roots` table, so the final `pickExt` scan sees them all).
+No extra hypothesis on `cmp`: the `ChangeKey` that keeps the old key object when the new key compares equal is
+admitted by the Spec as such (`Spec.AdmitG.changeKey_ok`). -/
+theorem C05_ifibonacci {K V : Type} (cmp : K → K → Int) (hc : LawfulCmp cmp) (eq : V → V → Bool) (cap : Nat)
+    (ops : List (Op K V)) :
+    Admitted cmp eq cap Map.empty ops (IFib.run cmp eq cap ops) := by
+  have := admitted_of_sim (IFib.step cmp eq) (IFib.InvF cmp cap) IFib.abs
+    (fun s op iv => IFib.step_full hc eq s op iv) ops (IFib.new cap) (IFib.invF_new cmp cap)
   rw [IFib.abs_new] at this
   exact this
 
-/-- the index-map invariant holds in every reachable state of the indexed Fibonacci heap Model -/
-theorem C05_ifibonacci_indexmap_partial {K V : Type} (cmp : K → K → Int)
-    (eq : V → V → Bool) (cap : Nat) (ops : List (Op K V)) (h : IFib K V)
-    (he : execWith (IFib.step cmp eq) (IFib.new cap) ops = .ok h) : IFib.Inv cap h :=
-  exec_of_sim_ok (IFib.step cmp eq) (IFib.Inv cap)
-    (fun s op s' r inv he => (IFib.step_sim eq s op s' r inv he).1) ops _ _ (IFib.inv_new cap) he
+/-- **Indexed Fibonacci heap, the representation invariant.**  After every history the state exists and
+satisfies `IFib.InvF`: the index-map invariant `Reg` (linked node ids pairwise distinct, `nodes[x.index] = x`
+for every linked node, every non-nil `nodes[i]` a linked node with `index = i` — through cuts, cascading cuts,
+consolidation, melds and root-list rotations), `n` = number of held indices = number of linked nodes, every
+`degree` field equals the length of the child list and the child lists satisfy the mark-refined degree bound
+(`FN.OK`, `FT.WFc`), heap order of every (parent, child) pair (`HO`) and the entry root before every node
+(`ExtAll`). -/
+theorem C05_ifibonacci_invariant {K V : Type} (cmp : K → K → Int) (hc : LawfulCmp cmp) (eq : V → V → Bool)
+    (cap : Nat) (ops : List (Op K V)) :
+    ∃ h, execWith (IFib.step cmp eq) (IFib.new cap) ops = .ok h ∧ IFib.InvF cmp cap h :=
+  exec_of_sim (IFib.step cmp eq) (IFib.InvF cmp cap)
+    (fun s op iv => by
+      obtain ⟨s', r, h1, h2, _⟩ := IFib.step_full hc eq s op iv
+      exact ⟨s', r, h1, h2⟩)
+    ops (IFib.new cap) (IFib.invF_new cmp cap)
 
-example : ∀ a b : Int, C05.cmpInt a b = 0 → a = b := by
-  intro a b h; unfold C05.cmpInt at h; split at h <;> (try split at h) <;> omega
+/-- for an *arbitrary* comparator (no law at all) the index/key/value part still holds for every call that
+returns: the trace is admitted without the extremality demand up to the first call that does not return, if
+any (`AdmittedWhileOk`), and every state reached satisfies the index-map invariant -/
+theorem C05_ifibonacci_indexmap_anycmp {K V : Type} (cmp : K → K → Int) (eq : V → V → Bool) (cap : Nat)
+    (ops : List (Op K V)) :
+    AdmittedWhileOk (fun _ _ => True) cmp eq cap Map.empty ops (IFib.run cmp eq cap ops) ∧
+    ∀ h, execWith (IFib.step cmp eq) (IFib.new cap) ops = .ok h → IFib.Inv cap h := by
+  constructor
+  · have := admittedWhileOk_of_sim (P := fun _ _ => True) (cmp := cmp) (eq := eq) (cap := cap)
+      (IFib.step cmp eq) (IFib.Inv cap) IFib.abs
+      (fun s op s' r inv he => IFib.step_sim eq s op s' r inv he) ops (IFib.new cap) (IFib.inv_new cap)
+    rw [IFib.abs_new] at this
+    exact this
+  · intro h he
+    exact exec_of_sim_ok (IFib.step cmp eq) (IFib.Inv cap)
+      (fun s op s' r inv he => (IFib.step_sim eq s op s' r inv he).1) ops _ _ (IFib.inv_new cap) he
 
 /-- the theorems are not vacuous: on this history (sparse indices, an out-of-range insert, a key
 decrease that cuts a node out of its tree, a key increase, a `DeleteIndex` of an inner node) both Models return
-from every call, so `AdmittedWhileOk` covers the whole trace -/
+from every call -/
 example :
     let ops : List (Op Int Nat) :=
       [.insert 9 1 0, .insert 7 50 1, .insert 1 40 2, .insert 4 30 3, .insert 6 20 4, .insert 2 10 5, .delete,
@@ -180,8 +184,7 @@ example :
 
 /-! ## invalid indices: rejected with `false`, in *any* state
 
-Unconditional (no invariant, no comparator law, any state `h` whatsoever — so in particular independent of the
-`panic`/`diverge` caveat of the `_partial` theorems): every index-taking call with an index outside
+Unconditional (no invariant, no comparator law, any state `h` whatsoever): every index-taking call with an index outside
 `[0, len(nodes))` (resp. `len(kvs)`) returns normally, answers `false`/`none` and leaves the state unchanged. -/
 
 theorem C05_invalid_index_rejected_ibinary {K V : Type} (cmp : K → K → Int) (h : IBinary K V) (i : Int)
